@@ -23,6 +23,7 @@ def plan(tier):
             "bed_setter_twice", "bed_record_clone_mid_history", "bed_record_clone_from", "bed_record_serde",
             "bed_record_default", "gff_setter_twice", "gff_record_clone_mid_history", "gff_record_clone_from",
             "gff_record_default", "gff_score_accessor_numeric", "records_iterator_adaptors",
+            "gff_attribute_keys_differing_in_case_only",
             "bed_file_rewrite_shorter", "gff_file_rewrite_shorter", "gff_percent_escape_like_value",
         ],
         "rule": "file histories: Writer::to_file / Reader::from_file on one path, R1, shorter R2, empty, longer R4, each "
